@@ -7,18 +7,25 @@ package writer
 // wherever an item is stored with a failure status; the loop invariant ties
 // it to overallError.  Checked by /verif/bin/govc.  Comment-only file.
 //@ ghostdecl bulkFailed int
+//@ ghostdecl bulkItems int
 
 //@ func HandleBulkBody
 //@   props C15
-//@   requires ghost(0, "bulkFailed") == 0
+//@   requires ghost(0, "bulkFailed") == 0 && ghost(0, "bulkItems") == 0
 //@   loop 1:
 //@     invariant overallError == (ghost(0, "bulkFailed") == 1)
+//@     invariant [one-item-per-action] ghost(0, "bulkItems") == inCount
 //@   site store items[inCount-1] #1:
 //@     ghostset ghost(0, "bulkFailed") = 1
+//@     ghostset ghost(0, "bulkItems") = ghost(0, "bulkItems") + 1
 //@   site store items[inCount-1] #2:
 //@     ghostset ghost(0, "bulkFailed") = 1
+//@     ghostset ghost(0, "bulkItems") = ghost(0, "bulkItems") + 1
 //@   site mapupdate response["errors"] #1:
 //@     assert [errors-iff-some-item-failed] overallError == (ghost(0, "bulkFailed") == 1)
 //@   site store items[inCount-1] #3:
 //@     assert [created-only-on-success] success
+//@     ghostset ghost(0, "bulkItems") = ghost(0, "bulkItems") + 1
+//@   site mapupdate response["items"] #1:
+//@     assert [one-item-per-action] ghost(0, "bulkItems") == inCount
 //@ end
